@@ -177,6 +177,14 @@ Theorem C14_xml_decode_denotes : forall (trim : str -> str) (P : xprefs) (f : li
 Proof. exact xml_decode_denotes. Qed.
 Print Assumptions C14_xml_decode_denotes.
 
+(* elements still open at the end of the input are closed there (repaired in
+   /repo: they were dropped with what they hold): leaving out any number of
+   end tags at the very end of a token stream does not change the document *)
+Theorem C14_xml_unclosed_kept : forall (trim : str -> str) (P : xprefs) (toks : list xtok) (names : list xname),
+  decode_toks trim P (toks ++ List.map TEnd names) = decode_toks trim P toks.
+Proof. exact xml_trailing_ends_redundant. Qed.
+Print Assumptions C14_xml_unclosed_kept.
+
 (* the grouping of repeated names (xmlNode.AddChild), characterised: the keys
    are the given keys in order of first occurrence ... *)
 Theorem C14_xml_group_keys : forall (A : Type) (kvs : list (str * A)),
